@@ -23,7 +23,8 @@
 (*                                    KeyError, "U" the harness' UserErr    *)
 (*                                    (raised by a catalogue function),     *)
 (*                                    "T" TypeError (unbatch of a non-iterable)*)
-(*     [t |-> "list", v |-> <<..>>]   a list (batches, groups, nested lists) *)
+(*     [t |-> "list", v |-> <<..>>]   a list or tuple (batches, groups, pairs, *)
+(*                                    nested lists)                         *)
 (* A stream is [items |-> <<elements>>, err |-> None | element]: the        *)
 (* elements it yields and then how it ends (normally, or by raising).      *)
 (*                                                                         *)
@@ -238,6 +239,9 @@ Conf(pr, S, A) ==
   IF Len(pr) = 0 THEN Final(S, A)
   ELSE LET d == Head(pr) IN
        IF d.op # "shuffle" THEN Conf(Tail(pr), Sem(d, S), A)
+       ELSE IF Ok(S) /\ Len(pr) = 1 THEN      \* shuffle is the last operator: compare as bags
+              /\ A.err = None
+              /\ IF A.full THEN IsPermutation(S.items, A.items) ELSE (A.n = -1 \/ A.n = Len(S.items))
        ELSE IF Ok(S) THEN \E q \in Perms(S.items) : Conf(Tail(pr), Str(q, None), A)
        ELSE /\ A.err = S.err
             /\ IF A.full THEN SubArrangement(A.items, S.items, Max(0, Len(S.items) - d.n))
@@ -394,7 +398,9 @@ IsSubseq(a, b) == IF Len(a) = 0 THEN TRUE ELSE IF Len(b) = 0 THEN FALSE
 Law(d, A, B) ==
   /\ (~Ok(A) /\ Ok(B)) => (d.op = "head" /\ Len(A.items) > d.n)     \* only head can outrun an upstream failure
   /\ CASE d.op \in {"map", "acc", "parmap"} ->
-            IF B.err = A.err THEN Len(B.items) = Len(A.items) ELSE Len(B.items) < Len(A.items) /\ B.err = X("U")
+            /\ Len(B.items) <= Len(A.items)
+            /\ Len(B.items) = Len(A.items) => B.err = A.err
+            /\ Len(B.items) < Len(A.items) => B.err = X("U")       \* the user function raised
        [] d.op \in {"peek", "buffer", "shuffle"} -> B = A
        [] d.op = "filter" -> IsSubseq(B.items, A.items) /\ B.err = A.err
        [] d.op = "fexc"   -> /\ IsSubseq(B.items, A.items)      \* it raises nothing but elements of the stream
@@ -452,8 +458,11 @@ EncSeq(s) == [i \in 1..Len(s) |-> Enc(s[i])]
 Case == << input, [j \in 1..Len(prog) |-> << prog[j].op, prog[j].a, prog[j].b, prog[j].n >>], EncSeq(Cur.items),
            Enc(Cur.err), Shuffled, NeedTable(prog, stages) >>
 
-ExportI ==
-  IF Export /\ CaseSum % SampleMod = SampleRes THEN PrintT(ToJson(Case)) ELSE TRUE
+Sampled == CaseSum % SampleMod = SampleRes
+ExportI == IF Export /\ Sampled THEN PrintT(ToJson(Case)) ELSE TRUE
+
+\* for the largest configuration: the two expensive invariants on the exported cases only
+SampledChecks == Sampled => (RunAgrees /\ NeedLaws)
 
 ASSUME Export => PrintT(ToJson([alphabet |-> EncSeq(Alphabet)]))
 =============================================================================
